@@ -31,6 +31,15 @@ CLAIMS = {
         technique='Coq proof (projection lemma over the pairing spec + keyed-state machine) + differential correspondence',
         ref='DESIGN.md §5 C05'),
 }
+    'C12': dict(
+        text='Coq theorems c12_events/sat_meaning/logs/no_logs_in_events/no_events_in_logs: for EVERY stream and EVERY '
+             'configuration the filtered listings equal `filter` of the unfiltered listing by the stated predicate (order and '
+             'multiplicity preserved); closed under the global context. Hand model tied to the code by a correspondence '
+             'through real v2/v3 dumps and the public API.',
+        note='trusted: Coq kernel+vm_compute; hand model Filters.v validated against PyKdebugParser.kevents/os_log_events; '
+             'container parsing is C02/C03', technique='Coq proof (filter-chain algebra) + differential correspondence',
+        ref='DESIGN.md §5 C12'),
+}
 
 NOT_YET = {
 }
